@@ -196,6 +196,33 @@ class Helper:
         if len(body) == 1 and isinstance(body[0], ast.Return) and \
                 body[0].value is not None:
             return body[0].value
+        # t = EXPR; ...; return f(t)   ->   f(EXPR)   (temporaries used
+        # once, or pure)
+        if len(body) >= 2 and isinstance(body[-1], ast.Return) and \
+                body[-1].value is not None and all(
+                    isinstance(st, ast.Assign) and len(st.targets) == 1
+                    and isinstance(st.targets[0], ast.Name)
+                    for st in body[:-1]):
+            from .canon import _pure_ext
+            env = {}
+            names = [st.targets[0].id for st in body[:-1]]
+            if len(set(names)) == len(names) and not (
+                    set(names) & set(self.params)):
+                ok = True
+                rest_all = [st.value for st in body[:-1]] + [body[-1].value]
+                for i, st in enumerate(body[:-1]):
+                    nm = st.targets[0].id
+                    uses = sum(1 for r in rest_all[i + 1:]
+                               for x in ast.walk(r)
+                               if isinstance(x, ast.Name) and x.id == nm)
+                    val = _SubstNames(env).visit(copy.deepcopy(st.value))
+                    if uses > 1 and not _pure_ext(val):
+                        ok = False
+                        break
+                    env[nm] = val
+                if ok:
+                    return _SubstNames(env).visit(
+                        copy.deepcopy(body[-1].value))
         if len(body) >= 1 and isinstance(body[0], ast.If):
             st = body[0]
             if len(st.body) == 1 and isinstance(st.body[0], ast.Return) \
@@ -208,6 +235,16 @@ class Helper:
                     return ast.IfExp(test=st.test, body=st.body[0].value,
                                      orelse=r)
         return None
+
+
+class _SubstNames(ast.NodeTransformer):
+    def __init__(self, env):
+        self.env = env
+
+    def visit_Name(self, node):
+        if isinstance(node.ctx, ast.Load) and node.id in self.env:
+            return copy.deepcopy(self.env[node.id])
+        return node
 
 
 class _Subst(ast.NodeTransformer):
@@ -314,6 +351,20 @@ class Inliner:
         """param -> actual expr (None when the call does not fit)"""
         params = h.params[1:] if h.is_method else list(h.params)
         out = {}
+        if len(call.args) == 1 and isinstance(call.args[0], ast.Starred) \
+                and isinstance(call.args[0].value, ast.Name) and \
+                not call.keywords and not h.defaults:
+            # f(*seq): parameter i is seq[i] (seq must have exactly that
+            # many elements, or the original call fails as well)
+            seq = call.args[0].value
+            out = {}
+            for i, p in enumerate(params):
+                out[p] = ast.Subscript(
+                    value=ast.Name(id=seq.id, ctx=ast.Load()),
+                    slice=ast.Constant(value=i), ctx=ast.Load())
+            if h.is_method:
+                out[h.params[0]] = ast.Name(id="self", ctx=ast.Load())
+            return out
         if any(isinstance(a, ast.Starred) for a in call.args) or any(
                 k.arg is None for k in call.keywords):
             return None
